@@ -275,6 +275,19 @@ func execC12(rc *harness.RunCtx, p *harness.Plan, cfg *Config, rawOps []c12Op) *
 		if res.Err != nil && isPanicErr(res.Err) {
 			return fail(i, "replica-panic", res.Err.Error())
 		}
+		// A replica write of an earlier, refused receive that was still
+		// asleep (a slow replica) when that receive returned may land while
+		// this operation runs: what a replica holds afterwards was not
+		// invented by a read that reports it.
+		heldAfter := func(ref string) bool {
+			h, _ := held(ref)
+			for _, x := range h {
+				if x {
+					return true
+				}
+			}
+			return false
+		}
 		switch op.Kind {
 		case "recv":
 			b := s.pool[op.B[0]]
@@ -329,6 +342,10 @@ func execC12(rc *harness.RunCtx, p *harness.Plan, cfg *Config, rawOps []c12Op) *
 				for _, x := range h {
 					anyHeld = anyHeld || x
 				}
+				if !anyHeld && heldAfter(b.Ref.String()) {
+					out.Reached["read-saw-a-straggling-replica-write"]++
+					break
+				}
 				if !anyHeld {
 					return fail(i, "fetch-invented", "fetch succeeded although no read replica holds the blob")
 				}
@@ -354,6 +371,10 @@ func execC12(rc *harness.RunCtx, p *harness.Plan, cfg *Config, rawOps []c12Op) *
 				}
 				if seen[ref] > 1 {
 					return fail(i, "stat-duplicate", "stat reported "+ref+" more than once")
+				}
+				if seen[ref] == 1 && !anyHeld && heldAfter(ref) {
+					out.Reached["read-saw-a-straggling-replica-write"]++
+					continue
 				}
 				if seen[ref] == 1 && !anyHeld {
 					return fail(i, "stat-invented", "stat reported "+ref+" which no read replica holds")
